@@ -69,13 +69,242 @@ MUTANTS = [
     ("empty table", "AegeanTools/regions.py",
      "sky = np.array(list(zip(ra, dec))).reshape(-1, 2)",
      "sky = np.array(list(zip(ra, dec)))", "C10-R6"),
+    ("meshgrid with the axis lengths in numpy order (seed C10b)",
+     "AegeanTools/MIMAS.py",
+     "    indexes = np.empty((data.shape[0]*data.shape[1], 2), dtype=int)\n    idx = np.array([(j, 0) for j in range(data.shape[1])])\n    j = data.shape[1]\n    for i in range(data.shape[0]):\n        idx[:, 1] = i\n        indexes[i*j:(i+1)*j] = idx\n",
+     "    xpix, ypix = np.meshgrid(np.arange(data.shape[0]),\n                             np.arange(data.shape[1]))\n    indexes = np.column_stack((xpix.ravel(), ypix.ravel()))\n", "C10-R1"),
+    ("meshgrid enumerated column-major", "AegeanTools/MIMAS.py",
+     "    indexes = np.empty((data.shape[0]*data.shape[1], 2), dtype=int)\n    idx = np.array([(j, 0) for j in range(data.shape[1])])\n    j = data.shape[1]\n    for i in range(data.shape[0]):\n        idx[:, 1] = i\n        indexes[i*j:(i+1)*j] = idx\n",
+     "    xpix, ypix = np.meshgrid(np.arange(data.shape[1]),\n                             np.arange(data.shape[0]), indexing='ij')\n    indexes = np.column_stack((xpix.ravel(), ypix.ravel()))\n", "C10-R7"),
+    ("block length is the number of rows", "AegeanTools/MIMAS.py",
+     "    j = data.shape[1]\n    for i in range(data.shape[0]):",
+     "    j = data.shape[0]\n    for i in range(data.shape[0]):", "C10-R7"),
+    ("fortran-order reshape", "AegeanTools/MIMAS.py",
+     "bigmask = bigmask.reshape(data.shape)",
+     "bigmask = bigmask.reshape(data.shape, order='F')", "C10-R7"),
 ]
 TWINS = [
+    ("vectorised pixel grid", "AegeanTools/MIMAS.py",
+     "    indexes = np.empty((data.shape[0]*data.shape[1], 2), dtype=int)\n    idx = np.array([(j, 0) for j in range(data.shape[1])])\n    j = data.shape[1]\n    for i in range(data.shape[0]):\n        idx[:, 1] = i\n        indexes[i*j:(i+1)*j] = idx\n",
+     "    xpix, ypix = np.meshgrid(np.arange(data.shape[1]),\n                             np.arange(data.shape[0]))\n    indexes = np.column_stack((xpix.ravel(), ypix.ravel()))\n"),
     ("tilde instead of bitwise_not", "AegeanTools/MIMAS.py",
      "    if not negate:\n        bigmask = np.bitwise_not(bigmask)",
      "    if not negate:\n        bigmask = ~bigmask"),
 ]
 
+
+
+# ---------------------------------------------------------------- layout (R7)
+def _shape_axis(fnode, e, data, depth=0):
+    """k if `e` is data.shape[k] (directly, via a once-assigned local, or via
+    `a, b = data.shape`), else None"""
+    if isinstance(e, ast.Subscript) and isinstance(e.value, ast.Attribute) \
+            and e.value.attr == "shape" and norm(e.value.value) == data and \
+            isinstance(e.slice, ast.Constant) and e.slice.value in (0, 1,
+                                                                    -1, -2):
+        return e.slice.value % 2
+    if isinstance(e, ast.Call) and norm(e.func) == "len" and e.args:
+        a = e.args[0]
+        if norm(a) == data:
+            return 0
+        if isinstance(a, ast.Subscript) and norm(a.value) == data and \
+                isinstance(a.slice, ast.Constant) and a.slice.value == 0:
+            return 1
+    if isinstance(e, ast.Name) and depth < 4:
+        defs = []
+        for st in walk_no_nested(fnode):
+            if isinstance(st, ast.Assign) and len(st.targets) == 1:
+                t = st.targets[0]
+                if isinstance(t, ast.Name) and t.id == e.id:
+                    defs.append(("v", st.value))
+                elif isinstance(t, (ast.Tuple, ast.List)):
+                    for k, el in enumerate(t.elts):
+                        if isinstance(el, ast.Name) and el.id == e.id:
+                            defs.append(("t", (k, st.value)))
+            elif isinstance(st, (ast.For, ast.AugAssign)):
+                tg = st.target
+                if e.id in names_in(tg):
+                    defs.append(("x", None))
+        if len(defs) != 1:
+            return None
+        kind, v = defs[0]
+        if kind == "v":
+            return _shape_axis(fnode, v, data, depth + 1)
+        if kind == "t":
+            k, val = v
+            if isinstance(val, ast.Attribute) and val.attr == "shape" and \
+                    norm(val.value) == data and k in (0, 1):
+                return k
+    return None
+
+
+def _range_axis(fnode, e, data):
+    """axis enumerated by range(n) / np.arange(n) with n = data.shape[k]"""
+    if isinstance(e, ast.Call) and norm(e.func) in (
+            "range", "np.arange", "numpy.arange") and len(e.args) == 1:
+        return _shape_axis(fnode, e.args[0], data)
+    if isinstance(e, ast.Name):
+        defs = [st.value for st in walk_no_nested(fnode)
+                if isinstance(st, ast.Assign) and len(st.targets) == 1 and
+                isinstance(st.targets[0], ast.Name) and
+                st.targets[0].id == e.id]
+        if len(defs) == 1:
+            return _range_axis(fnode, defs[0], data)
+    return None
+
+
+RC, CR, BAD = "row-major (row, column)", "column-major (column, row)", \
+    "not a tiling of the image"
+FLIP = {RC: CR, CR: RC}
+
+
+def flatten_layouts(fnode, data):
+    """Forward pass over the statements of mask_plane: for every local, the
+    order in which it enumerates the pixels of the image (RC / CR / BAD), or
+    nothing when it is not derived from a recognised pixel enumeration.
+    Returns (env, sinks) where sinks = [(node, layout-or-None)] for every
+    `<x>.reshape(data.shape)`."""
+    env = {}
+    sinks = []
+
+    def lay(e):
+        """layout of the value of expression e"""
+        if isinstance(e, ast.Name):
+            return env.get(e.id)
+        if isinstance(e, ast.Call):
+            fn = norm(e.func)
+            kw = {k.arg: k.value for k in e.keywords}
+            if fn in ("np.meshgrid", "numpy.meshgrid") and len(e.args) == 2:
+                a, b = (_range_axis(fnode, x, data) for x in e.args)
+                ij = isinstance(kw.get("indexing"), ast.Constant) and \
+                    kw["indexing"].value == "ij"
+                if a is None or b is None:
+                    return None
+                first, second = (a, b) if ij else (b, a)
+                g = RC if (first, second) == (0, 1) else \
+                    CR if (first, second) == (1, 0) else BAD
+                return ("tuple", g)
+            if fn in ("np.indices", "numpy.indices") and e.args and \
+                    norm(e.args[0]) == data + ".shape":
+                return ("tuple", RC)
+            if isinstance(e.func, ast.Attribute) and e.func.attr in (
+                    "ravel", "flatten", "reshape") or fn in (
+                    "np.ravel", "numpy.ravel"):
+                base = e.func.value if isinstance(e.func, ast.Attribute) \
+                    and fn not in ("np.ravel", "numpy.ravel") else (
+                        e.args[0] if e.args else None)
+                got = lay(base) if base is not None else None
+                if isinstance(got, tuple):
+                    got = got[1]
+                o = kw.get("order")
+                if o is None and e.func.attr != "reshape" and e.args and \
+                        isinstance(e.args[-1], ast.Constant) and \
+                        isinstance(e.args[-1].value, str):
+                    o = e.args[-1]
+                if got in FLIP and o is not None and not (
+                        isinstance(o, ast.Constant) and o.value in ("C",
+                                                                    "K")):
+                    got = FLIP[got] if isinstance(o, ast.Constant) and \
+                        o.value == "F" else None
+                if isinstance(e.func, ast.Attribute) and \
+                        e.func.attr == "reshape" and e.args and \
+                        norm(e.args[0]) in (data + ".shape",
+                                            "np.shape(%s)" % data):
+                    sinks.append((e, got))
+                    return None
+                return got
+        if isinstance(e, ast.Subscript):
+            got = lay(e.value)
+            if isinstance(got, tuple):
+                return got[1]
+            return got
+        # element-wise: whatever pixel order the operands have
+        found = set()
+        for sub in ast.iter_child_nodes(e):
+            if isinstance(sub, (ast.expr,)):
+                g = lay(sub)
+                if isinstance(g, tuple):
+                    g = g[1]
+                if g is not None:
+                    found.add(g)
+            elif isinstance(sub, ast.keyword):
+                g = lay(sub.value)
+                if g is not None and not isinstance(g, tuple):
+                    found.add(g)
+        if len(found) == 1:
+            return found.pop()
+        if len(found) > 1:
+            return BAD
+        return None
+
+    def assign(t, v):
+        if isinstance(t, ast.Name):
+            if v is None:
+                env.pop(t.id, None)
+            else:
+                env[t.id] = v[1] if isinstance(v, tuple) else v
+        elif isinstance(t, (ast.Tuple, ast.List)):
+            for el in t.elts:
+                assign(el, v)
+
+    def block(stmts, loops):
+        for st in stmts:
+            if isinstance(st, ast.Assign):
+                v = lay(st.value)
+                for t in st.targets:
+                    if isinstance(t, ast.Subscript) and \
+                            isinstance(t.slice, ast.Slice) and \
+                            isinstance(t.value, ast.Name):
+                        # block store  out[i*J:(i+1)*J] = <one row/column>
+                        lo = t.slice.lower
+                        if isinstance(lo, ast.BinOp) and \
+                                isinstance(lo.op, ast.Mult):
+                            for iv, jv in ((lo.left, lo.right),
+                                           (lo.right, lo.left)):
+                                if isinstance(iv, ast.Name) and \
+                                        iv.id in loops:
+                                    a = loops[iv.id]
+                                    b = _shape_axis(fnode, jv, data)
+                                    if a is None or b is None:
+                                        continue
+                                    env[t.value.id] = RC if (a, b) == (0, 1) \
+                                        else CR if (a, b) == (1, 0) else BAD
+                    elif isinstance(t, ast.Subscript):
+                        pass        # element/column store keeps the order
+                    else:
+                        assign(t, v)
+            elif isinstance(st, ast.For):
+                lp = dict(loops)
+                if isinstance(st.target, ast.Name):
+                    lp[st.target.id] = _range_axis(fnode, st.iter, data)
+                block(st.body, lp)
+                block(st.orelse, loops)
+            elif isinstance(st, ast.If):
+                before = dict(env)
+                block(st.body, loops)
+                after_body = dict(env)
+                env.clear()
+                env.update(before)
+                block(st.orelse, loops)
+                for k in set(after_body) | set(env):
+                    x, y = after_body.get(k), env.get(k)
+                    if x != y:
+                        env[k] = BAD if x and y else None
+                        if env[k] is None:
+                            del env[k]
+            elif isinstance(st, (ast.With,)):
+                block(st.body, loops)
+            elif isinstance(st, ast.Try):
+                block(st.body, loops)
+                block(st.finalbody, loops)
+            elif isinstance(st, (ast.Expr, ast.Return)) and \
+                    st.value is not None:
+                lay(st.value)
+            elif isinstance(st, ast.AugAssign):
+                lay(st.value)
+
+    block(fnode.body, {})
+    return env, sinks
 
 
 def polarity(fnode, negate_value, source_is):
@@ -248,6 +477,26 @@ def run(ctx):
         s.value is not None and norm(s.value) == data for s in rets),
         "mask_plane must return the (in-place masked) input array",
         node=rets[0] if rets else mp.node)
+    # ---------------------------------------------------------------- R7
+    ctx.rule("C10-R7", "the flat list of pixel positions is enumerated in "
+             "the order in which <mask>.reshape(data.shape) lays it out "
+             "again: row-major over (row, column)")
+    env7, sinks7 = flatten_layouts(mp.node, data)
+    n7 = 0
+    for node, got in sinks7:
+        if got is None:
+            ctx.unknown_site("C10-R7", mp, "pixel order of %s not derived "
+                             "from a recognised enumeration" % norm(node),
+                             node=node)
+            continue
+        n7 += 1
+        ctx.check("C10-R7", mp, "pixel order of %s" % norm(node, 60),
+                  got == RC, "the pixel list is enumerated %s but reshape("
+                  "data.shape) reads it row-major: each pixel receives the "
+                  "inside/outside verdict of another position" % got,
+                  node=node)
+    ctx.floor("C10-R7", n7, 1, "reshape(data.shape) sites with a derived "
+              "pixel order")
     # ---------------------------------------------------------------- R4
     ctx.rule("C10-R4", "every plane of a cube is masked by the same 2-d "
              "routine with loop-invariant wcs, region and negate")
